@@ -192,11 +192,17 @@ Proof. intros [H S _ _ _]. split; assumption. Qed.
 (* compilation does not touch the registers, the stack or the output *)
 Definition same_regs (s s' : vm) : Prop :=
   sp s' = sp s /\ bp s' = bp s /\ ep s' = ep s /\ scap s' = scap s /\ stack s' = stack s /\
-  out_log s' = out_log s.
+  out_log s' = out_log s /\ exists more, g_slots s' = g_slots s ++ more.
 Lemma same_regs_refl s : same_regs s s.
-Proof. repeat split. Qed.
+Proof. repeat split. exists []. rewrite app_nil_r. reflexivity. Qed.
 Lemma same_regs_trans a b c : same_regs a b -> same_regs b c -> same_regs a c.
-Proof. unfold same_regs. intuition congruence. Qed.
+Proof.
+  intros (A1 & A2 & A3 & A4 & A5 & A6 & m1 & A7) (B1 & B2 & B3 & B4 & B5 & B6 & m2 & B7).
+  repeat split; try congruence. exists (m1 ++ m2). rewrite B7, A7, app_assoc. reflexivity.
+Qed.
+Lemma same_regs_gslots s s' : g_slots s' = g_slots s -> sp s' = sp s -> bp s' = bp s -> ep s' = ep s ->
+  scap s' = scap s -> stack s' = stack s -> out_log s' = out_log s -> same_regs s s'.
+Proof. intros G. repeat split; auto. exists []. rewrite app_nil_r. exact G. Qed.
 
 (* ============================================================ values *)
 (* the value domain of the reference semantics: data, and builtin procedures (a datum
@@ -827,7 +833,7 @@ Lemma maybe_put_cell_m_ok d s : heap_datum d -> minv s ->
 Proof.
   intros Hd MI. destruct (maybe_put_cell_vrep d (hp s) (st s) Hd (mi_heap _ MI)) as (v & h' & s' & E & HI & [Xh Xs] & V).
   exists v, (with_store (with_heap s h') s'). unfold maybe_put_cell_m. rewrite E.
-  split; [reflexivity|]. split; [apply minv_heap_store; assumption|]. split; [|split; [repeat split|exact V]].
+  split; [reflexivity|]. split; [apply minv_heap_store; assumption|]. split; [|split; [apply same_regs_gslots; reflexivity|exact V]].
   constructor; cbn [hp st g_bind g_slots with_store with_heap]; auto.
   - intros i _. rewrite (mpc_lams _ _ _ _ _ _ E). reflexivity.
   - lia.
@@ -844,7 +850,7 @@ Proof.
   exists a, (with_store (with_heap s h1) (st s)).
   unfold put_cell_m, put_cell. cbn [maybe_put_cell]. rewrite E. cbn [bind].
   split; [reflexivity|]. split; [apply minv_heap_store; assumption|].
-  split; [|split; [repeat split|cbn [hp st g_bind g_slots with_store with_heap]; auto]].
+  split; [|split; [apply same_regs_gslots; reflexivity|cbn [hp st g_bind g_slots with_store with_heap]; auto]].
   constructor; cbn [hp st g_bind g_slots with_store with_heap]; auto using sext_refl. lia.
 Qed.
 
@@ -862,7 +868,7 @@ Proof.
     split; [reflexivity|].
     destruct MI as [HI [G1 G2] SP].
     cbn [hp st g_bind g_slots with_globals]. rewrite (assoc_find_cons a (len (g_slots s)) (g_bind s) a), N.eqb_refl.
-    split; [|split; [|split; [repeat split|auto]]].
+    split; [|split; [|split; [repeat split; exists [VUndef]; reflexivity|auto]]].
     + constructor; unfold ginv; cbn [hp st g_bind g_slots sp scap with_globals]; auto. split.
       * intros a' k'. rewrite assoc_find_cons, len_app.
         destruct (N.eqb_spec a a') as [<-|Hne]; [intros [= <-]; cbn; lia|].
@@ -1732,3 +1738,209 @@ Lemma step_halt m lp i bc : code_in m lp bc -> ip m = (lp, i) -> seg bc i [VOp O
 Proof. intros Hc Hip Hs. apply seg_head in Hs as [H0 _]. fetch_op' Hc Hip H0. reflexivity. Qed.
 
 End Top.
+
+(* ------------------------------------------------------------ prepare_eval + run *)
+Lemma genv_rel_compile rho s s' : cext s s' -> same_regs s s' ->
+  genv_rel rho s -> genv_rel rho s'.
+Proof.
+  intros X (_ & _ & _ & _ & _ & _ & more & Eg) G x r Hx. destruct (G x r Hx) as (a & k & v & A & C & B & L & V).
+  destruct (ce_heap _ _ X a A) as [A' C'].
+  exists a, k, v. split; [exact A'|]. split; [congruence|]. split; [apply (ce_bind _ _ X); exact B|].
+  split; [rewrite Eg, list_get_app_l; [exact L|eapply list_get_lt; exact L]|].
+  eapply vrep_ext; [exact V|apply cext_ext; exact X].
+Qed.
+
+Lemma put_lambda_spec L s : minv s ->
+  exists a s2, put_lambda L s = ROk (VPtr a) s2 /\ minv s2 /\ cext s s2 /\ same_regs s s2 /\
+    g_bind s2 = g_bind s /\ acc s2 = acc s /\
+    allocated (hp s2) a /\ cell_at (hp s2) a = VLambda (next_id (st s)) /\
+    next_id (st s) < next_id (st s2) /\ tget (lams (st s2)) (next_id (st s)) = Some (lambda_finish L).
+Proof.
+  intros MI. destruct (heap_put (hp s) (VLambda (next_id (st s)))) as [r h] eqn:E.
+  destruct (heap_put_frame _ _ _ _ (mi_heap _ MI) E ltac:(discriminate)) as (a & -> & A & C & HI & Fr).
+  exists a, (with_store (with_heap s h) (snd (new_lam (st s) (lambda_finish L)))).
+  split; [unfold put_lambda, new_lam; cbv beta iota; rewrite E; reflexivity|].
+  split; [apply minv_heap_store; assumption|].
+  split.
+  { constructor; cbn [hp st g_bind g_slots with_store with_heap new_lam snd]; auto.
+    - split; cbn [next_id strs vecs]; [lia|auto].
+    - intros i Hi. cbn [lams]. apply tget_tset_other. lia.
+    - lia. }
+  split; [apply same_regs_gslots; reflexivity|].
+  cbn [hp st g_bind acc with_store with_heap new_lam snd next_id lams].
+  split; [reflexivity|]. split; [reflexivity|]. split; [exact A|]. split; [exact C|]. split; [lia|].
+  apply tget_tset_same.
+Qed.
+
+Definition top_lam : lambda := emit_op (set_top (lambda_from_iof [] [] (lambda_new []) [] false)) OEnter.
+Definition entry_lam (lp : vcell) : lambda :=
+  emit_op (emit_op (emit (emit (emit_op (emit (emit_op (lambda_new []) OPushImmediate) (VArgc 0))
+                                        OMovImmediate) lp) VAcc) OCallAcc) OHalt.
+
+Lemma compile_runnable_eq e s : compile_runnable e s =
+  (dom lam1 <- compile top_lam true e; dom lp <- put_lambda (emit_op lam1 ORet); ret (entry_lam lp)) s.
+Proof. reflexivity. Qed.
+
+Section Eval.
+Variable ob : N -> M vcell.
+Variable bsem : N -> list rval -> option rval.
+Hypothesis Hb : forall b, builtin_ok ob bsem b.
+Notation run_one := (Vm.run_one ob).
+Notation steps := (RunProofs.steps ob).
+
+(* Vm::eval on a fragment expression: compile_runnable, put_lambda, then the run loop
+   through PUSH Argc 0 / MOV / CALL / ENTER / <code of e> / RET / HALT reaches the HALT
+   with a representation of the reference value in %acc and the registers of the start *)
+Theorem eval_fragment e rho r rho' s :
+  wf_expr e -> ref_eval bsem rho e r rho' -> minv s -> genv_rel rho s ->
+  transform_expr TRANSFORM_FUEL s (cell_of e) = Ok (cell_of e) ->
+  exists n m, (forall fuel, (n <= fuel)%nat -> eval ob fuel (cell_of e) s = halt_result m) /\
+    vrep (acc m) r (hp m) (st m) /\ genv_rel rho' m /\ minv m /\ cext s m /\
+    sp m = sp s /\ bp m = bp s /\ ep m = ep s /\ out_log m = out_log s.
+Proof.
+  intros Hwf HR MI G Htr.
+  assert (Ht : top_hdr top_lam) by (split; reflexivity).
+  destruct (compile_correct ob bsem Hb e Hwf (S (S (cell_size (cell_of e)))) top_lam true s ltac:(lia) Ht MI)
+    as (l1 & sA & code & E1 & F1 & S1 & MIA & XA & RA & EX).
+  specialize (EX _ _ _ HR).
+  destruct (put_lambda_spec (emit_op l1 ORet) sA MIA) as (a & sB & E2 & MIB & XB & RB & GbB & _ & AB & CB & LB & TB).
+  destruct (put_lambda_spec (entry_lam (VPtr a)) sB MIB) as (a0 & sC & E3 & MIC & XC & RC & GbC & _ & AC & CC & LC & TC).
+  set (m0 := with_ip sC (a0, 0)).
+  assert (Hprep : prepare_eval (cell_of e) s = ROk tt m0).
+  { unfold prepare_eval. unfold bindM at 1. rewrite compile_runnable_eq.
+    unfold bindM at 1. unfold compile. rewrite Htr, E1. unfold bindM at 1. rewrite E2. unfold ret at 1.
+    unfold bindM at 1. rewrite E3. reflexivity. }
+  assert (XsC : cext s sC) by (eapply cext_trans; [exact XA|]; eapply cext_trans; eassumption).
+  assert (RsC : same_regs s sC) by (eapply same_regs_trans; [exact RA|]; eapply same_regs_trans; eassumption).
+  destruct RsC as (Rsp & Rbp & Rep & Rcap & Rstk & Rlog & more & Rg).
+  pose proof (genv_rel_compile rho s sC XsC (conj Rsp (conj Rbp (conj Rep (conj Rcap (conj Rstk (conj Rlog (ex_intro _ more Rg))))))) G) as GC.
+  (* the two code blocks *)
+  set (bc0 := [VOp OPushImmediate; VArgc 0; VOp OMovImmediate; VPtr a; VAcc; VOp OCallAcc; VOp OHalt]).
+  set (bc1 := ([VOp OEnter] ++ code) ++ [VOp ORet]).
+  assert (Hbc1 : l_bc (lambda_finish (emit_op l1 ORet)) = bc1).
+  { change (l_bc (lambda_finish (emit_op l1 ORet))) with (fwd (emit_op l1 ORet)). rewrite fwd_emit_op, F1. reflexivity. }
+  assert (HcB : code_in sB a bc1).
+  { eexists; eexists. split; [exact AB|]. split; [exact CB|]. split; [exact LB|]. split; [exact TB|exact Hbc1]. }
+  assert (Hc1C : code_in sC a bc1) by (eapply code_in_ext; eassumption).
+  assert (Hc0C : code_in sC a0 bc0).
+  { eexists; eexists. split; [exact AC|]. split; [exact CC|]. split; [exact LC|]. split; [exact TC|reflexivity]. }
+  assert (HgetA : heap_get (hp sC) a = Ok (VLambda (next_id (st sA)))).
+  { destruct (ce_heap _ _ XC a AB) as [A' C']. rewrite (heap_get_alloc _ _ A'), C', CB. reflexivity. }
+  assert (HlamA : tget (lams (st sC)) (next_id (st sA)) = Some (lambda_finish (emit_op l1 ORet))).
+  { rewrite (ce_lams _ _ XC) by exact LB. exact TB. }
+  assert (HargsA : l_args (lambda_finish (emit_op l1 ORet)) = []).
+  { change (l_args (lambda_finish (emit_op l1 ORet))) with (l_args l1). destruct S1 as (_ & _ & _ & -> & _). reflexivity. }
+  (* segments *)
+  assert (Sg0 : forall pre x post, bc0 = pre ++ x ++ post -> seg bc0 (len pre) x) by (intros pre x post Hx; exists pre, post; auto).
+  assert (Sg1 : forall pre x post, bc1 = pre ++ x ++ post -> seg bc1 (len pre) x) by (intros pre x post Hx; exists pre, post; auto).
+  pose proof (mi_sp _ MIC) as HcapC.
+  (* PUSH Argc 0 *)
+  pose proof (step_pushimm ob m0 a0 0 bc0 (VArgc 0) (code_in_ip _ _ _ _ Hc0C) eq_refl
+                (Sg0 [] [VOp OPushImmediate; VArgc 0] _ eq_refl) ltac:(discriminate)) as St1.
+  set (m1 := pushed (with_ip m0 (a0, 0 + 2)) (VArgc 0)) in *.
+  assert (Hc0_1 : code_in m1 a0 bc0) by (eapply code_in_regs; [| |exact Hc0C]; reflexivity).
+  (* MOV lambda %acc *)
+  pose proof (step_movimm ob m1 a0 (0 + 2) bc0 (VPtr a) Hc0_1 eq_refl
+                (Sg0 [VOp OPushImmediate; VArgc 0] [VOp OMovImmediate; VPtr a; VAcc] _ eq_refl) ltac:(discriminate)) as St2.
+  set (m2 := with_acc (with_ip m1 (a0, 0 + 2 + 3)) (VPtr a)) in *.
+  assert (Hc0_2 : code_in m2 a0 bc0) by (eapply code_in_regs; [| |exact Hc0C]; reflexivity).
+  (* CALL *)
+  pose proof (step_call_lambda ob m2 a0 (0 + 2 + 3) bc0 a _ Hc0_2 eq_refl
+                (Sg0 [VOp OPushImmediate; VArgc 0; VOp OMovImmediate; VPtr a; VAcc] [VOp OCallAcc] _ eq_refl)
+                eq_refl HgetA) as St3.
+  set (m3 := with_ip (pushed (pushed (with_ip m2 (a0, 0 + 2 + 3 + 1)) (VEp (ep m2))) (VIp a0 (0 + 2 + 3 + 1))) (a, 0)) in *.
+  assert (Hc1_3 : code_in m3 a bc1) by (eapply code_in_regs; [| |exact Hc1C]; reflexivity).
+  assert (Hsp3 : sp m3 = sp s + 3) by (cbn [sp m3 m2 m1 m0 pushed with_scap with_stack with_ip with_acc]; rewrite Rsp; lia).
+  assert (Hcap3 : sp m3 < scap m3).
+  { unfold m3. change (sp (with_ip ?x _)) with (sp x). change (scap (with_ip ?x _)) with (scap x).
+    apply pushed_sp_lt. apply pushed_sp_lt. unfold m2, m1. cbn [sp scap with_ip with_acc].
+    apply pushed_sp_lt. exact HcapC. }
+  assert (Hs3_1 : sget m3 (sp s + 1) = VArgc 0).
+  { unfold m3. change (sget (with_ip ?x _) ?j) with (sget x j).
+    rewrite sget_pushed_other by (cbn [sp m2 m1 m0 pushed with_scap with_stack with_ip with_acc]; rewrite Rsp; lia).
+    rewrite sget_pushed_other by (cbn [sp m2 m1 m0 pushed with_scap with_stack with_ip with_acc]; rewrite Rsp; lia).
+    change (sget (with_ip m2 _) ?j) with (sget m1 j). unfold m1.
+    replace (sp s + 1) with (sp (with_ip m0 (a0, 0 + 2)) + 1) by (cbn [sp m0 with_ip]; rewrite Rsp; reflexivity).
+    apply sget_pushed_top. }
+  assert (Hs3_2 : sget m3 (sp s + 2) = VEp (ep s)).
+  { unfold m3. change (sget (with_ip ?x _) ?j) with (sget x j).
+    rewrite sget_pushed_other by (cbn [sp m2 m1 m0 pushed with_scap with_stack with_ip with_acc]; rewrite Rsp; lia).
+    replace (sp s + 2) with (sp (with_ip m2 (a0, 0 + 2 + 3 + 1)) + 1)
+      by (cbn [sp m2 m1 m0 pushed with_scap with_stack with_ip with_acc]; rewrite Rsp; lia).
+    rewrite sget_pushed_top. cbn [ep m2 m1 m0 pushed with_scap with_stack with_ip with_acc]. rewrite Rep. reflexivity. }
+  assert (Hs3_3 : sget m3 (sp s + 3) = VIp a0 (0 + 2 + 3 + 1)).
+  { unfold m3. change (sget (with_ip ?x _) ?j) with (sget x j).
+    replace (sp s + 3) with (sp (pushed (with_ip m2 (a0, 0 + 2 + 3 + 1)) (VEp (ep m2))) + 1)
+      by (cbn [sp m2 m1 m0 pushed with_scap with_stack with_ip with_acc]; rewrite Rsp; lia).
+    apply sget_pushed_top. }
+  (* ENTER *)
+  pose proof (step_enter_top ob m3 a bc1 _ _ Hc1_3 eq_refl eq_refl eq_refl HgetA HlamA HargsA
+                ltac:(lia) Hcap3 ltac:(rewrite Hsp3; replace (sp s + 3 - 2) with (sp s + 1) by lia; exact Hs3_1)) as St4.
+  set (m4 := with_bp (pushed (with_ip m3 (a, 1)) (VBp (bp m3))) (sp m3 + 1 - 4)) in *.
+  assert (Hsp4 : sp m4 = sp s + 4) by (cbn [sp m4 pushed with_bp with_scap with_stack with_ip]; rewrite Hsp3; lia).
+  assert (Hbp4 : bp m4 = sp s) by (cbn [bp m4 with_bp]; rewrite Hsp3; lia).
+  assert (Hkeep4 : forall j, j <= sp s + 3 -> sget m4 j = sget m3 j).
+  { intros j Hj. unfold m4. change (sget (with_bp ?x _) ?k) with (sget x k).
+    rewrite sget_pushed_other by (cbn [sp with_ip]; rewrite Hsp3; lia). reflexivity. }
+  assert (Hs4_4 : sget m4 (sp s + 4) = VBp (bp s)).
+  { unfold m4. change (sget (with_bp ?x _) ?k) with (sget x k).
+    replace (sp s + 4) with (sp (with_ip m3 (a, 1)) + 1) by (cbn [sp with_ip]; rewrite Hsp3; lia).
+    rewrite sget_pushed_top. cbn [bp m3 m2 m1 m0 pushed with_scap with_stack with_ip with_acc]. rewrite Rbp. reflexivity. }
+  assert (XC4 : cext sC m4) by (apply cext_same; try reflexivity; lia).
+  assert (MI4 : minv m4).
+  { destruct MIC as [HI GI SP]. constructor; [exact HI|exact GI|].
+    unfold m4. change (sp (with_bp ?x _)) with (sp x). change (scap (with_bp ?x _)) with (scap x).
+    apply pushed_sp_lt. exact Hcap3. }
+  assert (Hc1_4 : code_in m4 a bc1) by (eapply code_in_regs; [| |exact Hc1C]; reflexivity).
+  assert (G4 : genv_rel rho m4) by (eapply genv_rel_ext; [exact XC4|reflexivity|exact GC]).
+  (* the code of e *)
+  destruct (EX m4 a bc1 (cext_trans _ _ _ XB (cext_trans _ _ _ XC XC4)) MI4 Hc1_4
+              (Sg1 [VOp OEnter] code [VOp ORet] ltac:(unfold bc1; rewrite <- app_assoc; reflexivity)) eq_refl G4)
+    as (n & m5 & St5 & Fr5 & MI5 & Hip5 & V5 & G5).
+  change (len (fwd top_lam)) with 1 in Hip5.
+  pose proof (code_in_ext _ _ _ _ Hc1_4 (fr_ext _ _ Fr5)) as Hc1_5.
+  assert (Hbp5 : bp m5 = sp s) by (rewrite (fr_bp _ _ Fr5); exact Hbp4).
+  assert (Hsp5 : sp m5 = sp s + 4) by (rewrite (fr_sp _ _ Fr5); exact Hsp4).
+  assert (Hk5 : forall j, j <= sp s + 4 -> sget m5 j = sget m4 j) by (intros j Hj; apply (fr_stack _ _ Fr5); lia).
+  (* RET *)
+  assert (SgR : seg bc1 (1 + len code) [VOp ORet]).
+  { replace (1 + len code) with (len ([VOp OEnter] ++ code)) by (lens; lia).
+    apply (Sg1 _ _ []). unfold bc1. rewrite app_nil_r. reflexivity. }
+  pose proof (step_ret ob m5 a (1 + len code) bc1 (ep s) a0 (0 + 2 + 3 + 1) (bp s) Hc1_5 Hip5 SgR) as St6.
+  assert (Hcap5 : bp m5 + 4 < scap m5) by (rewrite Hbp5, <- Hsp5; apply MI5).
+  specialize (St6 Hcap5).
+  rewrite Hbp5 in St6.
+  specialize (St6 ltac:(rewrite Hk5, Hkeep4 by lia; exact Hs3_1) ltac:(rewrite Hk5, Hkeep4 by lia; exact Hs3_2)
+                  ltac:(rewrite Hk5, Hkeep4 by lia; exact Hs3_3) ltac:(rewrite Hk5 by lia; exact Hs4_4)).
+  set (m6 := with_bp (with_ip (with_ep (with_sp (with_ip m5 (a, 1 + len code + 1)) (sp s - 0)) (ep s)) (a0, 0 + 2 + 3 + 1)) (bp s)) in *.
+  (* HALT *)
+  assert (Hc0_6 : code_in m6 a0 bc0).
+  { eapply code_in_regs; [| |eapply code_in_ext; [exact Hc0C|eapply cext_trans; [exact XC4|apply Fr5]]]; reflexivity. }
+  pose proof (step_halt ob m6 a0 (0 + 2 + 3 + 1) bc0 Hc0_6 eq_refl
+                (Sg0 [VOp OPushImmediate; VArgc 0; VOp OMovImmediate; VPtr a; VAcc; VOp OCallAcc] [VOp OHalt] [] eq_refl)) as St7.
+  set (m7 := with_ip m6 (a0, 0 + 2 + 3 + 1 + 1)) in *.
+  exists (1 + 1 + 1 + 1 + n + 1 + 1)%nat, m7. split.
+  { intros fuel Hfuel. unfold eval. rewrite Hprep. unfold run_count.
+    replace fuel with ((1 + 1 + 1 + 1 + n + 1) + S (fuel - (1 + 1 + 1 + 1 + n + 1 + 1)))%nat by lia.
+    rewrite (run_loop_steps ob (1 + 1 + 1 + 1 + n + 1) m0 m6).
+    - rewrite run_loop_S, St7. reflexivity.
+    - eapply steps_trans; [|apply steps_one; exact St6].
+      eapply steps_trans; [|exact St5].
+      eapply steps_trans; [|apply steps_one; exact St4].
+      eapply steps_trans; [|apply steps_one; exact St3].
+      eapply steps_trans; [apply steps_one; exact St1|apply steps_one; exact St2]. }
+  assert (X57 : cext m5 m7) by (apply cext_same; try reflexivity; lia).
+  split; [exact V5|].
+  split; [eapply genv_rel_ext; [exact X57|reflexivity|exact G5]|].
+  split.
+  { destruct MI5 as [HI GI SP]. constructor; [exact HI|exact GI|].
+    cbn [sp scap m7 m6 with_bp with_ip with_ep with_sp with_stack]. lia. }
+  split; [eapply cext_trans; [exact XsC|]; eapply cext_trans; [exact XC4|]; eapply cext_trans; [apply Fr5|exact X57]|].
+  split; [cbn [sp m7 m6 with_bp with_ip with_ep with_sp with_stack]; lia|].
+  split; [reflexivity|]. split; [reflexivity|].
+  cbn [out_log m7 m6 with_bp with_ip with_ep with_sp with_stack]. rewrite (fr_log _ _ Fr5).
+  cbn [out_log m4 m3 m2 m1 m0 pushed with_bp with_scap with_stack with_ip with_acc]. exact Rlog.
+Qed.
+
+End Eval.
+Print Assumptions eval_fragment.
